@@ -1,7 +1,7 @@
 (* C15 runner: decodes a case, runs the model, encodes the result. Executable only.
    kind 0  turbo projection      (0 nx dx x0 rot pol sel pts)        -> (napices rows info)
    kind 1  standard projection   (1 ndim apices meshes pts)          -> (nrows rows info)
-   kind 2  precision operators   (2 n S lambda coeffs v)             -> (free assembled cumul training Q) *)
+   kind 2  precision operators   (2 n S lambda coeffs v dest)        -> (free assembled cumul training horner Q addfree addcs) *)
 From Coq Require Import List ZArith QArith Bool.
 From Gst Require Import lib.Sx lib.QAux lib.LinAlgQ C15.gen.MSS C15.Model C15.ModelOp.
 From Gst Require C16.Model.
@@ -48,17 +48,19 @@ Definition run (c : sx) : sx :=
           L [ofNat (fst (fst r)); ofList ofEntries (snd (fst r)); ofList ofSrow (snd r)]
       | _, _, _, _ => sx_error 1
       end
-  | L [I 2%Z; n; Sm; lam; cf; v] =>
-      match asNat n, asMQ Sm, asVQ lam, asVQ cf, asVQ v with
-      | Some n', Some S', Some lam', Some cf', Some v' =>
+  | L [I 2%Z; n; Sm; lam; cf; v; dst] =>
+      match asNat n, asMQ Sm, asVQ lam, asVQ cf, asVQ v, asVQ dst with
+      | Some n', Some S', Some lam', Some cf', Some v', Some dst' =>
           let Qm := build_Q n' S' lam' cf' in
           L [ofVQ (add_eval_power n' S' lam' cf' v');
              ofVQ (mmv n' n' Qm v');
              ofVQ (eval_op_cumul n' S' cf' v' (vk n' (fun _ => 0%Q)));
              ofVQ (add_eval_power_training n' S' lam' cf' v');
              ofVQ (eval_op n' S' cf' v');
-             ofList ofVQ Qm]
-      | _, _, _, _, _ => sx_error 1
+             ofList ofVQ Qm;
+             ofVQ (add_to_dest_free n' S' lam' cf' v' dst');
+             ofVQ (add_to_dest_cs n' S' lam' cf' v' dst')]
+      | _, _, _, _, _, _ => sx_error 1
       end
   | _ => sx_error 0
   end.
